@@ -282,7 +282,7 @@ Lemma convert_note_allowed_gen : forall q v,
 Proof.
   intros q v Hq. unfold convert. cbv zeta.
   destruct (bit_allowed (q_allowed q) (note_new (c_note (q_cached q) mod 12))
-            && in_window (q_cached q) v) eqn:G; cbn [snd c_note].
+            && in_window (q_cached q) (clamp_vin v)) eqn:G; cbn [snd c_note].
   - apply andb_prop in G. destruct G as [G _]. unfold note_allowed.
     unfold note_new in G.
     destruct (Z.leb_spec (c_note (q_cached q) mod 12) 11) as [_|Hgt]; [exact G|].
